@@ -89,7 +89,7 @@ Proof. exact slice_targets_sum. Qed.
         images are non-negative, which makes the `sum(plane) > 0` guard harmless) *)
 Theorem C16_defocus_keeps_focus : forall (P : Type) (n : nat) (m : nat -> P -> bool) (pix : list P)
     (blur : nat -> (P -> R) -> P -> R) (nsig : nat -> nat -> nat) (img : image P) (mult : R) (i ch : nat) (p : P),
-  (forall f, blur 0%nat f = f) ->
+  (forall f q, In q pix -> blur 0%nat f q = f q) ->
   (forall q, In q pix -> exactly_one P n m q) ->
   (forall q, In q pix -> 0 <= img ch q)%R ->
   In p pix -> (i < n)%nat -> m i p = true ->
@@ -112,7 +112,7 @@ Proof. exact single_plane_slice. Qed.
 
 Theorem C16_single_plane_defocus : forall (P : Type) (pix : list P) (blur : nat -> (P -> R) -> P -> R)
     (nsig : nat -> nat -> nat) (rho : P -> Z) (img : image P) (mult : R) (ch : nat) (p : P),
-  (forall f, blur 0%nat f = f) -> (forall q, In q pix -> rho q = 0%Z) ->
+  (forall f q, In q pix -> blur 0%nat f q = f q) -> (forall q, In q pix -> rho q = 0%Z) ->
   (forall q, In q pix -> 0 <= img ch q)%R -> In p pix ->
   defocus P 1 (qmask rho) pix blur nsig img mult 0 ch p = (mult * img ch p)%R.
 Proof. exact single_plane_defocus. Qed.
